@@ -223,9 +223,23 @@ def _str_harness(style, kinds):
     def conc(vals):
         return "".join(chr(vals[str(t)]) if not z3.is_int_value(t) else chr(t.as_long()) for t in lit)
 
+    # the same literal followed by an operator and a second literal of the same style: the token must end at the first
+    tail = " + " + prefix + q + "y" + q
+    tail_terms = [z3.IntVal(ord(c)) for c in tail]
+
     def run(vals):
         text = mks(SStr, lit, conc(vals))
-        obs = [lex_obligation(text, (ttype,) if not (multi and False) else (ttype,), "string" if not is_bytes else "bytes")]
+        kindname = "string" if not is_bytes else "bytes"
+        obs = [lex_obligation(text, (ttype,), kindname)]
+        longer = mks(SStr, lit + tail_terms, conc(vals) + tail)
+        ob2 = None
+        for sp in scanner():
+            m = sp.match(longer, 0)
+            if m is not None:
+                ob2 = Ob(f"C07/lexer/{kindname}-ends-at-closing-quote", z3.BoolVal(m.end() == len(text) and m.lastgroup == ttype),
+                         note=f"in `<literal>{tail}` the first token must be the first literal: matched {m.end()} of {len(text)} chars as {m.lastgroup}")
+                break
+        obs.append(ob2 or Ob(f"C07/lexer/{kindname}-ends-at-closing-quote", z3.BoolVal(False), note="scanner does not match"))
         tok = lark.Token(ttype, text)
         tree = _tree(tok)
         try:
@@ -261,7 +275,7 @@ def _str_harness(style, kinds):
 
     def witness(vals):
         return {"check": "c07.string_literal", "args": {"text": [ord(c) for c in conc(vals)], "bytes": is_bytes,
-                                                        "expected": _expected_concrete(style, kinds, vals)}}
+                                                        "expected": _expected_concrete(style, kinds, vals), "tail": tail}}
 
     return Harness(id=f"C07/{tag}", vars=vs or {"dummy": z3.Int("dummy")}, pre=pre, run=run, witness=witness, max_paths=300)
 
